@@ -181,6 +181,7 @@ FROM_PROOF = """
 MILLER_PROOF = """
   funext self g1
   unfold Sm9.Gen.G2Prepared.miller_loop Sm9.G2Prepared.miller_loop loopIdx
+  try simp only [Bool.or_comm self.coeffs.isEmpty]
   cases hc : (g1.is_zero || self.coeffs.isEmpty)
   · simp only [Bool.false_eq_true, if_false, bits_eq]
     generalize (List.range loopBits).reverse = idxs
@@ -368,6 +369,10 @@ def main(gen_dir, exclude=()):
             default = f'equiv_ring Sm9.Gen.{ns}.{fnl}'
         else:
             default = 'equiv_rfl'
+        if default == 'equiv_rfl' and ns != 'Ops':
+            mm = re.match(r'@(Sm9\.[\w.]+)', m)
+            if mm:
+                default = f'equiv_unf Sm9.Gen.{ns}.{fnl} {mm.group(1)}'
         tac = SPECIAL.get(key, default)
         L.append(f'theorem {nm} : @Sm9.Gen.{ns}.{fnl} = {m} := by {tac}')
         names.append(nm)
